@@ -176,6 +176,8 @@ class OpCase:
         self.args = args
         self.variant = variant or {}
         self.sig = sig_of(opdef.name, args, self.variant)
+        # float64 operands with exactly representable expectations: numeric screens at double precision
+        self.tol = 1e-12 if self.variant.get("precise") else None
 
     # ------------------------------------------------------------------ building blocks
     def _make_inputs(self, env, req_default):
